@@ -247,6 +247,7 @@ type c14mut struct {
 
 var c14scalars = []*jmut.Node{
 	jmut.Nl(), jmut.S(""), jmut.S("zz-unknown-v9"), jmut.S("ZZ"), jmut.S("-"), jmut.S("1e400"), jmut.S("123456789012345678901234567890"),
+	jmut.S("0." + strings.Repeat("0", 70)), jmut.S("1." + strings.Repeat("9", 25) + "%"), jmut.N("0." + strings.Repeat("0", 70) + "1"),
 	jmut.N("0"), jmut.N("-1"), jmut.N("1e400"), jmut.Bl(true), jmut.Ar(), jmut.O(), jmut.Ar(jmut.Nl()), jmut.Ar(jmut.O()), jmut.O(jmut.Member{Key: "x", Val: jmut.Nl()}),
 }
 
@@ -295,6 +296,30 @@ func enumMutants(root *jmut.Node, from, to int, fn func(name string, n *jmut.Nod
 					a3.A = append(a3.A, x.Clone())
 				}
 				fn(p.String()+":doubled", d3)
+				// heterogeneous rows: a copy of the first row that lacks one of its
+				// (nested) members, after and before the original rows
+				if first := orig.A[0]; first.K == jmut.Obj {
+					var subs []jmut.Path
+					first.Walk(func(q jmut.Path, y *jmut.Node) {
+						if len(q) >= 1 && len(q) <= 2 {
+							subs = append(subs, q)
+						}
+					})
+					for si, q := range subs {
+						cp := first.Clone()
+						if !cp.Remove(q) {
+							continue
+						}
+						d4 := root.Clone()
+						a4 := d4.At(p)
+						a4.A = append(a4.A, cp)
+						fn(fmt.Sprintf("%s:row-without[%d]%s:after", p.String(), si, q.String()), d4)
+						d5 := root.Clone()
+						a5 := d5.At(p)
+						a5.A = append([]*jmut.Node{cp.Clone()}, a5.A...)
+						fn(fmt.Sprintf("%s:row-without[%d]%s:before", p.String(), si, q.String()), d5)
+					}
+				}
 			}
 		case jmut.Obj:
 			// duplicate a member (the parser sees the key twice)
